@@ -424,11 +424,21 @@ func TestC02(t *testing.T) {
 			}
 		}
 		tm := newThrModel()
+		mentioned := map[string]bool{}
 		var hist []string
 		run.Progress("C02 C seq=%d", c)
 		for step := 0; step < 16; step++ {
 			ty := rt.Pick(cr, types)
-			switch cr.Intn(8) {
+			switch cr.Intn(9) {
+			case 8: // a registration that fails (unknown node, malformed list): thresholds read back as last set
+				ids := rt.Pick(cr, [][]string{{"ghost", "k0"}, {"k0"}, {"m0"}, {"k0", "m0"}})
+				err := w.B.RegisterPipeline(eventlogger.Pipeline{PipelineID: "bad", EventType: eventlogger.EventType(ty), NodeIDs: toNodeIDs(ids)})
+				hist = append(hist, fmt.Sprintf("RegisterPipeline(%s/bad,%v)->%v", ty, ids, err != nil))
+				mentioned[ty] = true
+				if err == nil {
+					// (C05's subject; keep the registry as the model has it)
+					w.B.RemovePipeline(eventlogger.EventType(ty), "bad")
+				}
 			case 6, 7: // registry change: thresholds must survive removal and re-registration of the type's pipelines
 				if ty == "t2" {
 					continue
@@ -487,7 +497,7 @@ func TestC02(t *testing.T) {
 				if mustKnow && (!known || !knowns) {
 					run.Violation("history-pattern:threshold-getter", "getter reports a type with pipelines or thresholds as unknown", hist)
 				}
-				if !tm.set[ty] && ty == "t2" && (known || knowns) {
+				if !tm.set[ty] && ty == "t2" && !mentioned[ty] && (known || knowns) {
 					run.Violation("history-pattern:threshold-getter", "getter reports a never-mentioned type as known", hist)
 				}
 				if uv, uk := w.B.SuccessThreshold("never-mentioned"); uv != 0 || uk {
